@@ -234,6 +234,15 @@ def long_cont():
     return s
 
 
+def long_quotes():
+    """long-cont with quotes at positions 3, 258, 291 and 300 (the last token of the sentence)."""
+    q = long_cont().copy('long-cont-quotes')
+    for i in (3, 258, 291, 300):
+        w, p, e, par = q.toks[i - 1]
+        q.toks[i - 1] = ('"', '$(', e, par)
+    return q
+
+
 def wide():
     """302 tokens; W has 292 token children (1..280 and 291..302), its head (edge HD) is token 270; Z = 281..290."""
     s = Spec('wide')
@@ -586,7 +595,7 @@ def p_c04(cx):
         exp = spec.sig(False)
         cx.case(spec.name, 'collapse, uncollapse', _program(spec, [('collapse_unary_chains', {}), ('uncollapse_unary_chains', {})],
                                                            lambda t, labs, exp=exp: sig_diff(exp, tree_sig(t, False))))
-    for spec in (deep_rb(), long_gap()):
+    for spec in (deep_rb(), long_gap(), long_quotes()):
         for op in ('punctuation_verylow', 'punctuation_symetrify', 'punctuation_root', 'add_topnode'):
             cx.case(spec.name, 'root_attach, ' + op, _program(spec, [('root_attach', {}), (op, {})],
                                                               (lambda t, labs: '') if op != 'add_topnode' else
@@ -893,10 +902,7 @@ def p_c13(cx):
     cx.case('deep-rb-200', 'punctuation_root moves the comma of an inner node to the root', _program(deep_rb_attached(), [('punctuation_root', {})],
             lambda t, labs: sig_diff(deep_rb().sig(), tree_sig(t))))
     cx.case('long-cont', 'punctuation_root without punctuation', root(long_cont()))
-    q = long_cont().copy('long-cont-quotes')
-    for i in (3, 258, 291, 300):
-        w, p, e, par = q.toks[i - 1]
-        q.toks[i - 1] = ('"', '$(', e, par)
+    q = long_quotes()
     others = [x for x in q.sig()[1] if x[1] != '"']
     cx.case(q.name, 'root_attach, punctuation_symetrify: only quotes may move (quotes at 3, 258, 291 and at the end of the sentence)',
             _program(q, [('root_attach', {}), ('punctuation_symetrify', {})],
